@@ -967,58 +967,62 @@ func (c *compiler) optimize(in []instruction) []instruction {
 	}
 	return c.doOptimize(c.doOptimize(in))
 }
+
+// A fused instruction carries the position of the last instruction of its window: that is the one that can fail
+// (GET, SET, DIV, CALL, ...), so a failure is reported at the same place with the optimizer on and off even when the
+// window spans several lines.
 func (c *compiler) doOptimize(in []instruction) []instruction {
 	var out []instruction
 	for n := 0; n < len(in); n++ {
 		switch {
 		case n < len(in)-2 && in[n].Code == codeLocalGet && in[n+1].Code == codeIncDec && in[n+2].Code == codeLocalSet && in[n].A == in[n+2].A:
-			out = append(out, instruction{Pos: in[n].Pos, Code: codeLocalIncDec, A: in[n].A, B: in[n+1].A})
+			out = append(out, instruction{Pos: in[n+2].Pos, Code: codeLocalIncDec, A: in[n].A, B: in[n+1].A})
 			n += 2
 
 		case n < len(in)-2 && in[n].Code == codeLocalGet && in[n+1].Code == codeLocalGet && in[n+2].Code == codeAdd:
-			out = append(out, instruction{Pos: in[n].Pos, Code: codeLocalAdd, A: in[n].A, B: in[n+1].A})
+			out = append(out, instruction{Pos: in[n+2].Pos, Code: codeLocalAdd, A: in[n].A, B: in[n+1].A})
 			n += 2
 		case n < len(in)-2 && in[n].Code == codeLocalGet && in[n+1].Code == codeLocalGet && in[n+2].Code == codeMul:
-			out = append(out, instruction{Pos: in[n].Pos, Code: codeLocalMul, A: in[n].A, B: in[n+1].A})
+			out = append(out, instruction{Pos: in[n+2].Pos, Code: codeLocalMul, A: in[n].A, B: in[n+1].A})
 			n += 2
 		case n < len(in)-2 && in[n].Code == codeLocalGet && in[n+1].Code == codeLocalGet && in[n+2].Code == codeDiv:
-			out = append(out, instruction{Pos: in[n].Pos, Code: codeLocalDiv, A: in[n].A, B: in[n+1].A})
+			out = append(out, instruction{Pos: in[n+2].Pos, Code: codeLocalDiv, A: in[n].A, B: in[n+1].A})
 			n += 2
 		case n < len(in)-2 && in[n].Code == codeLocalGet && in[n+1].Code == codeLocalGet && in[n+2].Code == codeSub:
-			out = append(out, instruction{Pos: in[n].Pos, Code: codeLocalSub, A: in[n].A, B: in[n+1].A})
+			out = append(out, instruction{Pos: in[n+2].Pos, Code: codeLocalSub, A: in[n].A, B: in[n+1].A})
 			n += 2
 
 		case n < len(in)-2 && in[n].Code == codeLocalGet && in[n+1].Code == codeConst && in[n+2].Code == codeGet:
-			out = append(out, instruction{Pos: in[n].Pos, Code: codeFastGet, A: in[n].A, B: in[n+1].A})
+			out = append(out, instruction{Pos: in[n+2].Pos, Code: codeFastGet, A: in[n].A, B: in[n+1].A})
 			n += 2
 		case n < len(in)-2 && in[n].Code == codeLocalGet && in[n+1].Code == codeConst && in[n+2].Code == codeSet:
-			out = append(out, instruction{Pos: in[n].Pos, Code: codeFastSet, A: in[n].A, B: in[n+1].A})
+			out = append(out, instruction{Pos: in[n+2].Pos, Code: codeFastSet, A: in[n].A, B: in[n+1].A})
 			n += 2
 		case n < len(in)-2 && in[n].Code == codeLocalGet && in[n+1].Code == codePush && in[n+2].Code == codeGet:
-			out = append(out, instruction{Pos: in[n].Pos, Code: codeFastGetInt, A: in[n].A, B: in[n+1].A})
+			out = append(out, instruction{Pos: in[n+2].Pos, Code: codeFastGetInt, A: in[n].A, B: in[n+1].A})
 			n += 2
 		case n < len(in)-2 && in[n].Code == codeLocalGet && in[n+1].Code == codePush && in[n+2].Code == codeSet:
-			out = append(out, instruction{Pos: in[n].Pos, Code: codeFastSetInt, A: in[n].A, B: in[n+1].A})
+			out = append(out, instruction{Pos: in[n+2].Pos, Code: codeFastSetInt, A: in[n].A, B: in[n+1].A})
 			n += 2
 		case n < len(in)-2 && in[n].Code == codeLocalGet && in[n+1].Code == codeGetAttr && in[n+2].Code == codeCall:
-			out = append(out, instruction{Pos: in[n].Pos, Code: codeFastCallAttr, A: in[n].A, B: in[n+1].A, C: joinParams(in[n+2].A, in[n+2].B)})
+			out = append(out, instruction{Pos: in[n+2].Pos, Code: codeFastCallAttr, A: in[n].A, B: in[n+1].A, C: joinParams(in[n+2].A, in[n+2].B)})
 			n += 2
 		case n < len(in)-1 && in[n].Code == codeGlobalGet && in[n+1].Code == codeCall:
-			out = append(out, instruction{Pos: in[n].Pos, Code: codeFastCall, A: in[n].A, B: in[n+1].A, C: in[n+1].B})
+			out = append(out, instruction{Pos: in[n+1].Pos, Code: codeFastCall, A: in[n].A, B: in[n+1].A, C: in[n+1].B})
 			n += 1
 
 		case n < len(in)-1 && in[n].Code == codeLocalGet && in[n+1].Code == codeGetAttr:
-			out = append(out, instruction{Pos: in[n].Pos, Code: codeFastGetAttr, A: in[n].A, B: in[n+1].A})
+			out = append(out, instruction{Pos: in[n+1].Pos, Code: codeFastGetAttr, A: in[n].A, B: in[n+1].A})
 			n += 1
 		case n < len(in)-1 && in[n].Code == codeLocalGet && in[n+1].Code == codeSetAttr:
-			out = append(out, instruction{Pos: in[n].Pos, Code: codeFastSetAttr, A: in[n].A, B: in[n+1].A})
+			out = append(out, instruction{Pos: in[n+1].Pos, Code: codeFastSetAttr, A: in[n].A, B: in[n+1].A})
 			n += 1
 
 		case n < len(in)-1 && in[n].Code == codePush && in[n+1].Code == codeAdd:
-			out = append(out, instruction{Pos: in[n].Pos, Code: codeIncDec, A: in[n].A})
+			out = append(out, instruction{Pos: in[n+1].Pos, Code: codeIncDec, A: in[n].A})
 			n += 1
 		case n < len(in)-1 && in[n].Code == codePush && in[n+1].Code == codeSub && in[n].A != 0:
-			out = append(out, instruction{Pos: in[n].Pos, Code: codeIncDec, A: -in[n].A})
+			out = append(out, instruction{Pos: in[n+1].Pos, Code: codeIncDec, A: -in[n].A})
 			n += 1
 
 		case n < len(in) && in[n].Code == codeJump && in[n].A == 0:
